@@ -76,6 +76,11 @@ def run_pool(jobs, modules, scen_name, nproc, budget, job_timeout):
     for p in procs.values():
         try: p.terminate()
         except Exception: pass
+    # configurations still queued when the budget ran out: without this the queue's feeder thread blocks the interpreter's exit for ever
+    # (it waits for a reader of the pipe that no longer exists)
+    for q_ in (tasks, resq):
+        try: q_.cancel_join_thread(); q_.close()
+        except Exception: pass
     cutjobs = [jobs[i] for i in range(len(jobs)) if i not in results]
     return [results[i] for i in sorted(results)], len(cutjobs)
 
